@@ -1,7 +1,7 @@
 (* Properties_C07.v — MLR is ordinary least squares with intercept. *)
 From Coq Require Import Floats.
 From mathcomp Require Import all_ssreflect all_algebra.
-From LS Require Import NumOps RcfOps F64Ops Kernels Algebra Mlr MlrSpec GJ.
+From LS Require Import NumOps RcfOps F64Ops Kernels Algebra Mlr MlrSpec GJ GjExec.
 Set Implicit Arguments. Unset Strict Implicit. Unset Printing Implicit Defensive.
 Import Order.TTheory GRing.Theory Num.Theory.
 Local Open Scope ring_scope.
@@ -48,7 +48,15 @@ Example C07_f64_runs :
   v_agree 0x1p-40 1 (head [::] (ml_B M)) [:: 1; 2] && v_agree 0x1p-40 1 (ml_r2 M) [:: 1] = true.
 Proof. by vm_compute. Qed.
 
+(* the hypothesis NZ of the section above ("what the inversion of Z'Z returned is a left inverse") is met by the
+   EXECUTABLE inversion the model of OrdinaryLeastSquares calls (Algebra.gj_inverse), for every size, whenever no
+   pivot vanishes *)
+Theorem C07_executable_inverse_meets_NZ (R : rcfType) p (A : seq (seq R)) : RcfOps.wf p p A ->
+  (forall i, (i < p)%N -> pivot_of p (state p A i) i != 0%R) ->
+  (mx_of p p (gj_inverse A) *m mx_of p p A = 1%:M)%R.
+Proof. exact: gj_inverse_mx. Qed.
 Print Assumptions C07_normal_equations.
+Print Assumptions C07_executable_inverse_meets_NZ.
 Print Assumptions C07_least_squares.
 Print Assumptions C07_exact_recovery.
 Print Assumptions C07_gauss_jordan_sound.
